@@ -49,6 +49,8 @@ type Replica struct {
 	LastCloneStatus string // last clone status this replica reported
 	StatusAtRW      string // LastCloneStatus at the moment it was told to become RW
 	ToldRW          int
+	RevertedTo      []string // snapshot disk names of the reverts this replica carried out
+	FailedActions   []string // management actions this replica answered with an error
 }
 
 var (
@@ -255,6 +257,7 @@ func (m *Replica) Action(action string, obj interface{}) error {
 	m.noteCall(action != "open")
 	m.Actions = append(m.Actions, action)
 	if m.fail("a." + action) {
+		m.FailedActions = append(m.FailedActions, action)
 		return ErrREST
 	}
 	if action != "open" && len(m.Chain) == 0 {
@@ -277,6 +280,10 @@ func (m *Replica) Action(action string, obj interface{}) error {
 		m.Snapshots = append(m.Snapshots, str(in["name"]))
 		m.SnapAtOp = append(m.SnapAtOp, len(m.Applied))
 		m.Remain--
+	case "revert":
+		if n, ok := obj.(*string); ok {
+			m.RevertedTo = append(m.RevertedTo, *n)
+		}
 	case "resize":
 		in := *(obj.(*map[string]interface{}))
 		m.ResizeTo = append(m.ResizeTo, str(in["size"]))
